@@ -5,6 +5,7 @@ build, parameters, stub sub-constructs taken from the real library), instantiate
 evaluate the contract's guards and ensures clauses natively (pyvc/native.py) with the interface functions interpreted by
 running the real stub sub-constructs.  Returns a description of the first violated clause, or None.
 """
+import os
 import io
 import random
 
@@ -220,6 +221,11 @@ class NativeCase:
                     v = None
                     env[nm] = ('VOpq', 0, None)
                     return None
+                elif 'filename' in nm:
+                    # never an int: open(<int>) adopts and later CLOSES that file descriptor (a random 1 closed the checker's stdout)
+                    import tempfile
+                    v = os.path.join(tempfile.gettempdir(), 'pyvc_native_%d.bin' % os.getpid())
+                    open(v, 'wb').write(b'\x00\x01\x02\x03')
                 else:
                     v = rand_value(rng)
                 env[nm] = val_of(v)
